@@ -1,5 +1,5 @@
 (* C20/Model.v — executable state-machine model of autode.opt.optimisers.base.OptimiserHistory
-   (base.py:916-1208), written by following the code line by line.  Definitions only.
+   (base.py:916-1214), written by following the code line by line.  Definitions only.
 
    The file system is part of the state: `fs : option archive` is the trajectory .zip (None = the
    file does not exist).  An archive is the LIST of its members in write order: python's zipfile
@@ -9,10 +9,8 @@
    `item` = one coordinate set together with its energy, gradient and Hessian (what pickle stores),
    `par`  = the optimiser-parameter dict.  Both are abstract: nothing below inspects them.
 
-   `lenient` (first argument of load_img/step) selects between the code as it IS (false) and the
-   one-line patch proposed for `load` (true, base.py:1044-1047: load nothing from an archive that
-   holds no coordinates instead of asking for member 'coords_-1').  Theorems that do not mention
-   it hold for both; the correspondence check decides which one /repo is. *)
+   The model follows /repo after commit 24aa35f (open refuses once coordinates have been dropped from
+   memory, a second close is a no-op, load reads nothing from an archive without coordinates). *)
 From Coq Require Import List ZArith Bool Arith Lia.
 Import ListNotations.
 Set Implicit Arguments.
@@ -39,7 +37,7 @@ Section Model.
 Variable item : Type.
 Variable par : Type.
 
-(* zip members: 'ade_opt_trj' (base.py:1006), 'opt_params' (1080), 'coords_<i>' (1129,1145) *)
+(* zip members: 'ade_opt_trj' (base.py:1012), 'opt_params' (1083), 'coords_<i>' (1132,1151) *)
 Inductive member := MHeader | MParams (p : par) | MCoords (i : nat) (x : item).
 Definition archive := list member.
 
@@ -92,28 +90,28 @@ Definition mem_neg (m : list item) (k : Z) : res item :=
   if (j <? 0)%Z then Err EIndex
   else match nth_error m (Z.to_nat j) with Some x => Ok x | None => Err EIndex end.
 
-(* the members close() appends: coords_idx, coords_(idx+1), ... (base.py:1142-1147) *)
+(* the members close() appends: coords_idx, coords_(idx+1), ... (base.py:1148-1153) *)
 Fixpoint cmem (idx : nat) (l : list item) : archive :=
   match l with [] => [] | x :: r => MCoords idx x :: cmem (S idx) r end.
 
-(* ---------------------------------------------------------------- __getitem__ (base.py:1152-1194) *)
+(* ---------------------------------------------------------------- __getitem__ (base.py:1158-1200) *)
 Definition getitem (w : world) (z : Z) : res (option item) :=
   let (fs, h) := w in
   let L := Z.of_nat (len h) in
-  let i := if (z <? 0)%Z then (z + L)%Z else z in                         (* 1177-1178 *)
-  if ((i <? 0) || (L <=? i))%Z then Err EIndex                            (* 1179-1180 *)
-  else if (L - Z.of_nat (maxlen h) <=? i)%Z then                          (* 1183 *)
-    match mem_neg (mem h) (i - L) with Ok x => Ok (Some x) | Err e => Err e end   (* 1184 *)
-  else if negb (fname h) then Ok None                                     (* 1187-1188: lost *)
+  let i := if (z <? 0)%Z then (z + L)%Z else z in                         (* 1183-1184 *)
+  if ((i <? 0) || (L <=? i))%Z then Err EIndex                            (* 1185-1186 *)
+  else if (L - Z.of_nat (maxlen h) <=? i)%Z then                          (* 1189 *)
+    match mem_neg (mem h) (i - L) with Ok x => Ok (Some x) | Err e => Err e end   (* 1190 *)
+  else if negb (fname h) then Ok None                                     (* 1193-1194: lost *)
   else match fs with
        | None => Err EFileNotFound                                        (* ZipFile(...,"r") *)
-       | Some a => match get_coords (Z.to_nat i) a with                   (* 1190-1192 *)
+       | Some a => match get_coords (Z.to_nat i) a with                   (* 1196-1198 *)
                    | Some x => Ok (Some x)
                    | None => Err EKey
                    end
        end.
 
-(* __iter__ / __reversed__ (base.py:1196-1208): generators over self[i]; an exception ends them *)
+(* __iter__ / __reversed__ (base.py:1202-1214): generators over self[i]; an exception ends them *)
 Fixpoint collect (w : world) (idxs : list nat) : list (option item) * option err :=
   match idxs with
   | [] => ([], None)
@@ -123,29 +121,27 @@ Fixpoint collect (w : world) (idxs : list nat) : list (option item) * option err
               end
   end.
 
-(* ---------------------------------------------------------------- load (base.py:1010-1053) *)
-Definition load_idxs (lenient : bool) (n : nat) : list Z :=
-  if n <? 2 then (if lenient && (n =? 0) then [] else [(Z.of_nat n - 1)%Z])     (* 1044-1045 *)
-  else [(Z.of_nat n - 2)%Z; (Z.of_nat n - 1)%Z].                                 (* 1047 *)
-Fixpoint load_mem (a : archive) (idxs : list Z) (acc : list item) : res (list item) :=
+(* ---------------------------------------------------------------- load (base.py:1016-1059) *)
+(* load_idxs = list(range(max(len - 2, 0), len))   (base.py:1050) *)
+Definition load_idxs (n : nat) : list nat := seq (n - 2) (n - (n - 2)).
+Fixpoint load_mem (a : archive) (idxs : list nat) (acc : list item) : res (list item) :=
   match idxs with
   | [] => Ok acc
-  | z :: r => if (z <? 0)%Z then Err EKey                                 (* 'coords_-1' *)
-              else match get_coords (Z.to_nat z) a with
-                   | Some x => load_mem a r (push 2 acc x)                (* cls(): maxlen = 2 *)
-                   | None => Err EKey
-                   end
+  | i :: r => match get_coords i a with
+              | Some x => load_mem a r (push 2 acc x)                     (* cls(): maxlen = 2 *)
+              | None => Err EKey
+              end
   end.
-Definition load_img (lenient : bool) (img : image) : res hist :=
+Definition load_img (img : image) : res hist :=
   match img with
-  | INone => Err EFileNotFound                                            (* 1025-1026 *)
-  | IGarbage => Err EValue                                                (* 1027-1030 *)
+  | INone => Err EFileNotFound                                            (* 1031-1032 *)
+  | IGarbage => Err EValue                                                (* 1033-1036 *)
   | IZip a =>
-      if negb (has_header a) then Err EValue                              (* 1033-1036 *)
-      else let n := n_coords a in                                         (* 1041 *)
-           match load_mem a (load_idxs lenient n) [] with                 (* 1048-1051 *)
+      if negb (has_header a) then Err EValue                              (* 1039-1042 *)
+      else let n := n_coords a in                                         (* 1047 *)
+           match load_mem a (load_idxs n) [] with                         (* 1050-1054 *)
            | Err e => Err e
-           | Ok m => Ok (mkHist 2 m n true true)                          (* 1022,1038,1042 *)
+           | Ok m => Ok (mkHist 2 m n true true)                          (* 1022,1044,1048 *)
            end
   end.
 Definition img_of (fs : option archive) : image :=
@@ -167,42 +163,43 @@ Inductive out :=
 Definition of_res (r : res (option item)) : out := match r with Ok x => OItem x | Err e => OErr e end.
 Definition of_seq (r : list (option item) * option err) : out := OSeq (fst r) (snd r).
 
-Definition step (lenient : bool) (w : world) (o : op) : world * out :=
+Definition step (w : world) (o : op) : world * out :=
   let (fs, h) := w in
   match o with
-  | Open =>                                                               (* base.py:981-1008 *)
+  | Open =>                                                               (* base.py:981-1014 *)
       if fname h then (w, OErr ERuntime)                                  (* 989-990 *)
-      else ((Some [MHeader], mkHist (maxlen h) (mem h) (len h) true (closed h)), ODone)  (* 997-1007 *)
-  | Add x =>                                                              (* base.py:1106-1132 *)
-      if closed h then (w, OErr ERuntime)                                 (* 1118-1119 *)
+      else if length (mem h) <? len h then (w, OErr ERuntime)             (* 992-996: entries already dropped *)
+      else ((Some [MHeader], mkHist (maxlen h) (mem h) (len h) true (closed h)), ODone)  (* 1003-1013 *)
+  | Add x =>                                                              (* base.py:1109-1135 *)
+      if closed h then (w, OErr ERuntime)                                 (* 1121-1122 *)
       else
-        let l1 := S (len h) in                                            (* 1121 (before any failure) *)
+        let l1 := S (len h) in                                            (* 1124 (before any failure) *)
         let m1 := push (maxlen h) (mem h) x in
-        if (length (mem h) <? maxlen h) || negb (fname h) then            (* 1123-1125 *)
+        if (length (mem h) <? maxlen h) || negb (fname h) then            (* 1126-1128 *)
           ((fs, mkHist (maxlen h) m1 l1 (fname h) (closed h)), ODone)
         else match fs with
-             | None => ((fs, mkHist (maxlen h) (mem h) l1 (fname h) (closed h)), OErr EFileNotFound)   (* 1127 *)
+             | None => ((fs, mkHist (maxlen h) (mem h) l1 (fname h) (closed h)), OErr EFileNotFound)   (* 1130 *)
              | Some a =>
                  match mem h with
                  | [] => ((fs, mkHist (maxlen h) (mem h) l1 (fname h) (closed h)), OErr EIndex)   (* maxlen=0 only *)
-                 | x0 :: _ =>                                             (* 1128-1131 *)
+                 | x0 :: _ =>                                             (* 1131-1134 *)
                      ((Some (a ++ [MCoords (n_coords a) x0]), mkHist (maxlen h) m1 l1 (fname h) (closed h)), ODone)
                  end
              end
-  | SaveParams p =>                                                       (* base.py:1060-1083 *)
-      if negb (fname h) then (w, OErr ERuntime)                           (* 1069-1070 *)
+  | SaveParams p =>                                                       (* base.py:1063-1086 *)
+      if negb (fname h) then (w, OErr ERuntime)                           (* 1072-1073 *)
       else match fs with
            | None => ((Some [MParams p], h), ODone)                       (* mode "a" creates the file *)
-           | Some a => if has_params a then (w, OErr EFileExists)         (* 1075-1079 *)
-                       else ((Some (a ++ [MParams p]), h), ODone)         (* 1080-1081 *)
+           | Some a => if has_params a then (w, OErr EFileExists)         (* 1078-1082 *)
+                       else ((Some (a ++ [MParams p]), h), ODone)         (* 1083-1084 *)
            end
-  | GetParams =>                                                          (* base.py:1085-1104 *)
+  | GetParams =>                                                          (* base.py:1088-1107 *)
       if negb (fname h) then (w, OErr ERuntime)
       else match fs with
            | None => (w, OErr EFileNotFound)
            | Some a => match get_params a with
                        | Some p => (w, OParams p)
-                       | None => (w, OErr EFileNotFound)                  (* 1099-1100 *)
+                       | None => (w, OErr EFileNotFound)                  (* 1102-1103 *)
                        end
            end
   | GetItem z => (w, of_res (getitem w z))
@@ -213,44 +210,47 @@ Definition step (lenient : bool) (w : world) (o : op) : world * out :=
       (w, match mem_neg (mem h) (-1) with Ok x => OItem (Some x) | Err e => OErr e end)
   | Penultimate =>                                                        (* 947-961 *)
       (w, match mem_neg (mem h) (-2) with Ok x => OItem (Some x) | Err e => OErr e end)
-  | Close =>                                                              (* base.py:1134-1150 *)
-      if negb (fname h) then (w, OErr ERuntime)                           (* 1139-1140 *)
+  | Close =>                                                              (* base.py:1137-1156 *)
+      if negb (fname h) then (w, OErr ERuntime)                           (* 1142-1143 *)
+      else if closed h then (w, ODone)                                    (* 1145-1146: already flushed *)
       else match fs with
-           | None => (w, OErr EFileNotFound)                              (* 1142: _n_stored *)
-           | Some a => ((Some (a ++ cmem (n_coords a) (mem h)),           (* 1143-1147: ONE ZipFile session *)
-                         mkHist (maxlen h) (mem h) (len h) (fname h) true), ODone)   (* 1149 *)
+           | None => (w, OErr EFileNotFound)                              (* 1148: _n_stored *)
+           | Some a => ((Some (a ++ cmem (n_coords a) (mem h)),           (* 1149-1153: ONE ZipFile session *)
+                         mkHist (maxlen h) (mem h) (len h) (fname h) true), ODone)   (* 1155 *)
            end
-  | CleanUp =>                                                            (* base.py:1055-1058 *)
+  | CleanUp =>                                                            (* base.py:1058-1061 *)
       if negb (fname h) then (w, OErr EType)
       else match fs with
            | None => (w, OErr EFileNotFound)
            | Some _ => ((None, h), ODone)
            end
-  | Load => match load_img lenient (img_of fs) with
+  | Load => match load_img (img_of fs) with
             | Ok h' => ((fs, h'), ODone)
             | Err e => (w, OErr e)
             end
-  | LoadForeign k => (w, match load_img lenient (foreign_img k) with Ok _ => ODone | Err e => OErr e end)
+  | LoadForeign k => (w, match load_img (foreign_img k) with Ok _ => ODone | Err e => OErr e end)
   end.
 
-Fixpoint run (lenient : bool) (w : world) (ops : list op) : world * list out :=
+Fixpoint run (w : world) (ops : list op) : world * list out :=
   match ops with
   | [] => (w, [])
-  | o :: r => let (w1, x) := step lenient w o in
-              let (w2, xs) := run lenient w1 r in (w2, x :: xs)
+  | o :: r => let (w1, x) := step w o in
+              let (w2, xs) := run w1 r in (w2, x :: xs)
   end.
-Definition exec (lenient : bool) (ml : nat) (ops : list op) : world := fst (run lenient (init ml) ops).
+Definition exec (ml : nat) (ops : list op) : world := fst (run (init ml) ops).
 
 (* ---------------------------------------------------------------- the abstract specification *)
 (* What a trajectory IS: the list of pushed items, whether/when it was opened (how many had been
    pushed by then), the stored parameters, and whether it has been closed. *)
 Record astate := mkA { aP : list item; aopen : option nat; asaved : option par; aclosed : bool }.
 Definition ainit : astate := mkA [] None None false.
-Definition astep (A : astate) (o : op) : astate :=
+Definition astep (ml : nat) (A : astate) (o : op) : astate :=
   match o with
   | Open => match aopen A with
             | Some _ => A
-            | None => mkA (aP A) (Some (length (aP A))) (asaved A) (aclosed A)
+            | None => if length (aP A) <=? ml           (* nothing has been dropped from memory yet *)
+                      then mkA (aP A) (Some (length (aP A))) (asaved A) (aclosed A)
+                      else A
             end
   | Add x => if aclosed A then A else mkA (aP A ++ [x]) (aopen A) (asaved A) (aclosed A)
   | SaveParams p => match aopen A, asaved A with
@@ -263,35 +263,24 @@ Definition astep (A : astate) (o : op) : astate :=
              end
   | _ => A
   end.
-Definition arun (A : astate) (ops : list op) : astate := fold_left astep ops A.
-Definition spec (ops : list op) : astate := arun ainit ops.
-Definition pushed (ops : list op) : list item := aP (spec ops).
+Definition arun (ml : nat) (A : astate) (ops : list op) : astate := fold_left (astep ml) ops A.
+Definition spec (ml : nat) (ops : list op) : astate := arun ml ainit ops.
+Definition pushed (ml : nat) (ops : list op) : list item := aP (spec ml ops).
 
-(* one life of one object, closed at most once (a second close, clean_up and replacing the object
-   by a reloaded one are outside the refinement; the first is refuted in Props.v) *)
-Definition op_ok (A : astate) (o : op) : bool :=
+(* one life of one object: no clean_up, no replacement of the object by a reloaded one *)
+Definition op_ok (o : op) : bool :=
   match o with
   | CleanUp | Load => false
-  | Close => negb (aclosed A)
   | _ => true
   end.
-Fixpoint proper_from (A : astate) (ops : list op) : bool :=
-  match ops with
-  | [] => true
-  | o :: r => op_ok A o && proper_from (astep A o) r
-  end.
-Definition proper (ops : list op) : bool := proper_from ainit ops.
+Definition proper (ops : list op) : bool := forallb op_ok ops.
 
-(* the file was opened before the (maxlen+1)-th add *)
-Definition early (ml : nat) (A : astate) : bool :=
-  match aopen A with None => true | Some L => L <=? ml end.
 Definition opened (A : astate) : bool := match aopen A with Some _ => true | None => false end.
 
-(* what the trajectory holds on disk, as a list, for the abstract state A *)
-Definition shift (ml : nat) (A : astate) : nat := match aopen A with Some L => L - ml | None => 0 end.
+(* what the trajectory holds on disk, as a list, for the abstract state A: everything once closed,
+   otherwise everything that has left the memory window *)
 Definition disk (ml : nat) (A : astate) : list item :=
-  if aclosed A then skipn (shift ml A) (aP A)
-  else skipn (shift ml A) (firstn (length (aP A) - ml) (aP A)).
+  if aclosed A then aP A else firstn (length (aP A) - ml) (aP A).
 
 (* all entries of a loaded trajectory, read through its own __getitem__ *)
 Definition contents (w : world) : list (option item) * option err := collect w (seq 0 (len (snd w))).
